@@ -6,6 +6,7 @@
 #include "exec.cpp"
 #include <terminalpp/stdout_channel.hpp>
 #include <csignal>
+#include <unistd.h>
 #include <cstdlib>
 
 // VERIF_SIGNALS=1: a handled signal (no-op handler, SA_RESTART) may arrive at any time.  A blocking write(2) that has
@@ -20,6 +21,8 @@ int main()
         sa.sa_handler = on_usr1;
         sa.sa_flags = SA_RESTART;
         sigaction(SIGUSR1, &sa, nullptr);
+        // tell the parent the handler is installed (before that a SIGUSR1 would terminate the process)
+        if (::write(2, "READY\n", 6) != 6) return 4;
     }
     bool const fmt_state = std::getenv("VERIF_COUT_STATE") != nullptr;
     std::string line;
